@@ -51,6 +51,21 @@ def verifier(chk, prog, path, kind):
     chk.require(bool(T) and p is None, "R1", f, "ok-needs-threshold",
                 "Ok(()) is returned on a path that does not pass the edge valid >= threshold",
                 site_of(sp), path=ctx.describe_path(p))
+    # "a document that does meet its threshold is not rejected for signature reasons": the verifier's
+    # failing exits are exactly: role entry missing, canonical serialisation failed, threshold not met
+    errs = []
+    for b in ctx.body.blocks:
+        if b.cleanup:
+            continue
+        for s_ in b.stmts:
+            if s_.k == "assign" and s_.rv.k == "agg" and s_.rv.j.get("ak") == "adt" and (
+                    s_.rv.j["adt"].startswith("tough::schema::error::") and (s_.rv.j["adt"].endswith("Snafu") or s_.rv.j["adt"].endswith("::Error"))):
+                errs.append(s_.rv.j["adt"].split("::")[-1] + ("::" + s_.rv.j["variant"] if s_.rv.j["adt"].endswith("::Error") else ""))
+    want = {"root": {"MissingRoleSnafu", "JsonSerializationSnafu", "SignatureThresholdSnafu"},
+            "delegations": {"Error::RoleNotFound", "JsonSerializationSnafu", "SignatureThresholdSnafu"}}[kind]
+    chk.require(sorted(errs) == sorted(want), "R1", f, "no-other-rejection",
+                "the verifier can fail for %s; expected exactly %s (an extra rejection would refuse documents that meet "
+                "their threshold)" % (sorted(errs), sorted(want)), site_of(ctx.body.span))
     # the threshold belongs to the role entry selected for this role
     incs = [o for o in counter_og if o.kind == "bin" and o.key[2].startswith("Add")]
     SET_LEN = ("std::collections::hash::set::HashSet::len", "alloc::collections::btree::set::BTreeSet::len")
